@@ -61,6 +61,16 @@ func (p *printer) printFile(file *ast.File) error {
 		case *ast.GenDecl:
 			p.setComment(d.Doc)
 
+			if len(d.Specs) == 0 {
+				// empty group: `全局: 完毕` / `常量: 完毕`
+				tok := token.Zh_全局
+				if d.Tok == token.CONST || d.Tok == token.Zh_常量 {
+					tok = token.Zh_常量
+				}
+				p.print(d.Pos(), tok, token.COLON, formfeed, d.Rparen, token.Zh_完毕)
+				continue
+			}
+
 			switch s := d.Specs[0].(type) {
 			case *ast.ImportSpec:
 				assert(len(d.Specs) == 1)
